@@ -6,18 +6,26 @@ def build(vx):
     """build /verif/replay against vx.REPO; returns the binary path"""
     tag = hashlib.sha1(vx.REPO.encode()).hexdigest()[:8]
     work = os.path.join(vx.BUILD, f"replay_crate-{tag}")
-    os.makedirs(os.path.join(work, "src"), exist_ok=True)
-    open(os.path.join(work, "Cargo.toml"), "w").write(open(os.path.join(vx.VERIF, "replay", "Cargo.toml.in")).read().replace("@REPO@", vx.REPO))
-    shutil.copy(os.path.join(vx.VERIF, "replay", "src", "main.rs"), os.path.join(work, "src", "main.rs"))
-    lock = os.path.join(vx.REPO, "Cargo.lock")
-    if os.path.exists(lock):
-        shutil.copy(lock, os.path.join(work, "Cargo.lock"))
     tgt = os.path.join(vx.BUILD, "xt2")
-    p = subprocess.run(["cargo", "build", "--offline", "--target-dir", tgt], cwd=work, capture_output=True, text=True,
-                       env=dict(os.environ, CARGO_NET_OFFLINE="true"), timeout=900)
-    if p.returncode != 0:
-        raise RuntimeError("replay crate does not build against the working tree: " + p.stderr[-1500:])
-    return os.path.join(tgt, "debug", "vx-replay")
+    # checks of several properties may run at the same time: build and copy the binary under a file lock, and run this
+    # invocation's own copy
+    import fcntl
+    os.makedirs(vx.GEN, exist_ok=True)
+    with open(os.path.join(vx.BUILD, "replay.lock"), "w") as lk:
+        fcntl.flock(lk, fcntl.LOCK_EX)
+        os.makedirs(os.path.join(work, "src"), exist_ok=True)
+        open(os.path.join(work, "Cargo.toml"), "w").write(open(os.path.join(vx.VERIF, "replay", "Cargo.toml.in")).read().replace("@REPO@", vx.REPO))
+        shutil.copy(os.path.join(vx.VERIF, "replay", "src", "main.rs"), os.path.join(work, "src", "main.rs"))
+        lock = os.path.join(vx.REPO, "Cargo.lock")
+        if os.path.exists(lock):
+            shutil.copy(lock, os.path.join(work, "Cargo.lock"))
+        p = subprocess.run(["cargo", "build", "--offline", "--target-dir", tgt], cwd=work, capture_output=True, text=True,
+                           env=dict(os.environ, CARGO_NET_OFFLINE="true"), timeout=900)
+        if p.returncode != 0:
+            raise RuntimeError("replay crate does not build against the working tree: " + p.stderr[-1500:])
+        mine = os.path.join(vx.GEN, "vx-replay")
+        shutil.copy2(os.path.join(tgt, "debug", "vx-replay"), mine)
+    return mine
 
 
 def run_scenario(binary, sc):
